@@ -29,6 +29,26 @@ bool prop(Tape &t, Report &R) {
   // so its pin offsets) changes, which the incremental model does not see.
   bool excl = R.known("c05-orientation-flip");
   bool direct = t.flip(1, 3);
+  // high-fanout nets (clock / reset like): every cell several times, > 100 pins.
+  // Decided last so that tapes saved before this class existed keep their meaning.
+  if (t.flip(1, 5)) {
+    int n = s.cells.size();
+    int nbig = t.choose(1, 2);
+    for (int b = 0; b < nbig; ++b) {
+      NetSpec net;
+      int per = 101 / std::max(1, n) + 1 + t.choose(0, 2);
+      for (int c = 0; c < n; ++c)
+        for (int k = 0; k < per; ++k) {
+          net.cells.push_back(c);
+          net.xo.push_back((int)t.range(0, s.cells[c].w));
+          net.yo.push_back((int)t.range(0, s.cells[c].h));
+        }
+      net.weight = 1.0f;
+      s.nets.push_back(net);
+    }
+    s.labels.insert("nets:high-fanout(>100 pins)");
+    R.classify("nets:high-fanout(>100 pins)");
+  }
   if (!direct) {
     R.classify("layer:a-top-level");
     TopLevelOutcome out = runTopLevel(s, params, ob, excl);
